@@ -53,6 +53,10 @@ func vh_C10_history() {
 	env := vxNewClient()
 	env.c.maxAttempts = int32(vxChoose(2)) // 0 or 1 retransmission: timeouts are reachable within the depth
 	env.c.SetRTO(time.Duration(1 + vxLen(1000)))
+	// lock-set discipline of the client on every path of the history: closed and the transaction table
+	// are only touched under c.mux (a failure is confirmed natively by TestVxClientRace under -race)
+	vxGuard("Client", "closed", "mux")
+	vxGuard("Client", "t", "mux")
 	var txs [2]vxTx
 	txs[0] = vxTx{id: vxID(), rec: &vxCalls{}}
 	txs[1] = vxTx{id: vxID(), rec: &vxCalls{}}
